@@ -212,7 +212,15 @@ async def ns_step(hp, w, rnd, ss, pool):
         nm = rnd.choice(existing + ["INBOX"] + [rnd.choice(pool)])
         r = await w.op_subscribe(ss, nm, on=(op == "subscribe"))
     elif op == "append" and live:
-        await w.op_append(ss, rnd.choice(live + ["INBOX"]), flags=rnd.choice([None, ["\\Seen"], ["kw1", "\\Flagged"]]))
+        # also into \\Noselect placeholders: must be refused, nothing may appear in them
+        placeholders = [n for n in existing if w.boxes[n].noselect]
+        target = rnd.choice(placeholders) if placeholders and rnd.random() < 0.4 else rnd.choice(live + ["INBOX"])
+        await w.op_append(ss, target, flags=rnd.choice([None, ["\\Seen"], ["kw1", "\\Flagged"]]))
+        if placeholders and rnd.random() < 0.5:
+            if ss.selected != "INBOX" or ss.view is None:
+                await w.op_select(ss, "INBOX")
+            if ss.nview():
+                await w.op_copy(ss, [1], rnd.choice(placeholders))
     elif op == "restart":
         await w.restart()
         ss = w.session()
